@@ -31,7 +31,7 @@ CFG = {
             "barrier, every request carrying unique markers in path, query, body and a header. The request-context slice "
             "also runs over HTTP/1.1-over-TLS (tag transport:tls): a second server with the same endpoints started with "
             "ConfigTls::AsBytes, a tokio-rustls client; sequential requests on one TLS connection and 2 / 6 concurrent "
-            "TLS connections; the peer port the handler sees must be the client socket's local port. f32 / f64 path and query parameters ({v: f32} / {v: f64}; the handler echoes to_bits()) are checked for CORRECT ROUNDING: for 19 adjacent pairs of f32 and of f64 values spread over the exponent range (0 and the least subnormals, around the least normal, around 1.0, around 2^24 / 2^53, the largest finite | infinity, carry-rich significands; thorough: two more per ~11th / ~97th exponent) the exact decimal expansion of the midpoint (computed by the harness with its own bignum; the tie must go to the even neighbour), midpoint + 10^-j and midpoint - 10^-j with j = 1 and 40 digits beyond the expansion (the double-rounding trap; must go to the upper / lower neighbour), with '-', '+' and leading zeros in turn; the grammar's corners (-0.0, '1.', '.5', exponents +-400 and of 22 digits, inf / infinity / nan in any case and with a sign, 100+ digit texts, the published double-rounding examples); values printed by the standard library (Display and {:e}) must come back. The expected bits are known by construction; the model (Scalars.parse_f32 / parse_f64: exact rational arithmetic on Z) must give the same bits. A deterministic large-scope slice (group large, tags large:<dimension>:<size>) pushes every size-like dimension across 15/16/17 .. 8191/8192/8193 (quick: a rotating third of the sizes per dimension plus the top one; thorough: all), 40 000, and 65535/65536/65537 (thorough: 1 MiB): bytes of a path segment / query value / form value / JSON string (plain, fully escaped, a 2-, 3- or 4-byte character straddling offsets 63|64, 255|256, 4095|4096), unknown / repeated / known query parameters (up to 1025 / 4097 / 33), wildcard elements (Vec<String>, Vec<enum>, Vec<Uuid>: 17, 257, 1025), JSON array elements, fields and nesting depth, leading zeros of a number for u8 / i64 / u128 / i128 at their extremes, raw and streamed body bytes, 257 (thorough 65537) requests on ONE keep-alive connection with the request-context clause on each, 64 / 65 / 257 connections at once in the isolation slice. Same model, spec and judge as the ordinary cases; long byte strings are written losslessly with the run-length operator rep. ABSTRACTIONS (the Coq VM cannot hold lists of 64 Ki elements): payloads of 65535 bytes and more are sent for real but judged by the specification alone on digests computed by the harness (length, first and last 32 bytes, FNV-1a-64 of every value sent and echoed: CLargeOk); of the 65537 keep-alive requests the harness compares every echo byte for byte and emits as Coq cases every request that differs plus the first and last 130 and every 256th. A slow-client slice (tag transport:slow-client; own server and threads, beside the "
+            "TLS connections; the peer port the handler sees must be the client socket's local port. JSON TypedBody types that go through serde's BUFFERING (group json-buffered): a #[serde(flatten)]ed inner struct with f64 / f32 / u64 / i64 / bool / String / Option<f64> fields, an untagged enum {f64, String, struct with a float}, an internally tagged and an adjacently tagged enum with data variants holding floats and integers, flatten inside a tagged variant; members in random order; floats with fractions and exponents, -0.0, +-1e308, subnormals, integers at the 64-bit bounds, u128 / i128 at their bounds in the adjacently tagged enum with the tag first; the expected values are computed from the texts with the standard library (never through serde_json: the harness does not depend on serde_json's number representation), floats are echoed as bits. These types are judged by the SPECIFICATION (a body valid for the type is accepted and echoed exactly); the model contributes only the content-type / size / parser-oracle skeleton of extract_typed_body, serde's derived buffering code is not modelled. f32 / f64 path and query parameters ({v: f32} / {v: f64}; the handler echoes to_bits()) are checked for CORRECT ROUNDING: for 19 adjacent pairs of f32 and of f64 values spread over the exponent range (0 and the least subnormals, around the least normal, around 1.0, around 2^24 / 2^53, the largest finite | infinity, carry-rich significands; thorough: two more per ~11th / ~97th exponent) the exact decimal expansion of the midpoint (computed by the harness with its own bignum; the tie must go to the even neighbour), midpoint + 10^-j and midpoint - 10^-j with j = 1 and 40 digits beyond the expansion (the double-rounding trap; must go to the upper / lower neighbour), with '-', '+' and leading zeros in turn; the grammar's corners (-0.0, '1.', '.5', exponents +-400 and of 22 digits, inf / infinity / nan in any case and with a sign, 100+ digit texts, the published double-rounding examples); values printed by the standard library (Display and {:e}) must come back. The expected bits are known by construction; the model (Scalars.parse_f32 / parse_f64: exact rational arithmetic on Z) must give the same bits. A deterministic large-scope slice (group large, tags large:<dimension>:<size>) pushes every size-like dimension across 15/16/17 .. 8191/8192/8193 (quick: a rotating third of the sizes per dimension plus the top one; thorough: all), 40 000, and 65535/65536/65537 (thorough: 1 MiB): bytes of a path segment / query value / form value / JSON string (plain, fully escaped, a 2-, 3- or 4-byte character straddling offsets 63|64, 255|256, 4095|4096), unknown / repeated / known query parameters (up to 1025 / 4097 / 33), wildcard elements (Vec<String>, Vec<enum>, Vec<Uuid>: 17, 257, 1025), JSON array elements, fields and nesting depth, leading zeros of a number for u8 / i64 / u128 / i128 at their extremes, raw and streamed body bytes, 257 (thorough 65537) requests on ONE keep-alive connection with the request-context clause on each, 64 / 65 / 257 connections at once in the isolation slice. Same model, spec and judge as the ordinary cases; long byte strings are written losslessly with the run-length operator rep. ABSTRACTIONS (the Coq VM cannot hold lists of 64 Ki elements): payloads of 65535 bytes and more are sent for real but judged by the specification alone on digests computed by the harness (length, first and last 32 bytes, FNV-1a-64 of every value sent and echoed: CLargeOk); of the 65537 keep-alive requests the harness compares every echo byte for byte and emits as Coq cases every request that differs plus the first and last 130 and every 256th. A slow-client slice (tag transport:slow-client; own server and threads, beside the "
             "rest of the run): for JSON, url-encoded, untyped, streaming and multipart bodies a valid body in two or three "
             "pieces with a silent pause of 5.5 / 10.5 / 31.5 s (thorough: also 61.5 / 121 s) in mid-body or between the "
             "complete header block and the first body byte; the echo must equal the bytes sent. Non-trivial: every "
@@ -77,8 +77,9 @@ CFG = {
         "design_ref": "DESIGN.md §6 C09",
         "note": "partial: the concurrency clause is proved of the model and sampled on the code (real schedules "
                 "cannot be enumerated); serde_json and multer's body parser are oracles with stated contracts; hyper "
-                "and routing are taken as given. Open known finding K9a (u128/i128 query and form fields are "
-                "refused whatever their value: serde_urlencoded). K9b (blanks before ';' in a multipart content "
+                "and routing are taken as given. Open known findings K9a (u128/i128 query and form fields are "
+                "refused whatever their value: serde_urlencoded) and K9c (u128/i128 fields of a JSON body in a position "
+                "serde buffers - flatten, untagged / internally tagged enums - likewise: serde's Content buffer). K9b (blanks before ';' in a multipart content "
                 "type) was repaired in /repo (df8298c); its witness runs first on every check.",
         "technique": "Coq proof (induction over encodings, declarative characterisation of serde's derived struct "
                      "deserialiser, transcribed media-type state machine) + live-server echo correspondence",
